@@ -144,6 +144,14 @@ CLAIMED = {
    note=TB + "What git prints for `log -p`, `diff-index`, `worktree list`, `for-each-ref` is git's (2.39.5); the retention tasks themselves (which refs/commits are scanned) are tied by the scenario oracle, not modelled in Lean; C-quoted file names are outside the parser model; 'unpushed' = objects introduced by a commit reachable from a local branch, tag or HEAD and not from the prune remote's refs (the manual's reading, DESIGN I7); date windows are exercised by dating commits (no faketime), boundaries kept 6 h away in the oracle. D11, D25, D28, D29 fixed in /repo.",
    technique="Lean 4 proof (set-level case analysis of prune; induction over log sections for the parser state machine) + scenario correspondence with a plumbing-only oracle + trace-fed differential check of the set logic + parser differential on real git output",
    ref="§5 C05"),
+ "C13": dict(
+   text="Lean theorems over the set-level model of fsckCommand/doFsckObjects/doFsckPointers/fsckPointer for ALL reference lists, tracked-file lists and flag combinations: with both checks fsck succeeds exactly when every referenced object is fine (intact, or absent with size 0) and every tracked "
+        "file is a canonical pointer; no flags = both checks; --objects / --pointers alone characterised; the objects named are exactly the missing and corrupt ones (no intact one is ever named); the pointers named are exactly the non-canonical and non-pointer files; only corrupt objects are moved, "
+        "every corrupt referenced one is moved by a repairing run, nothing is moved under --dry-run or --pointers. Scenarios with the real binary: plumbing-built histories with every tracked path as canonical / non-canonical pointer / raw content / empty pointer, a staged pointer, five damage kinds on local objects, "
+        "revisions none / commit / A..B, flags, --dry-run, fetchexclude; expected reports from plumbing + `git check-attr`, a snapshot of .git/lfs for moves and untouched objects; the set-level outcome (exit, named objects, named pointers, moved) is compared with the model.",
+   note=TB + "Which commits/blobs a revision argument selects is judged by the scenario oracle (plumbing), not modelled in Lean; the attribute reading of fsck --pointers is only exercised with root-level .gitattributes except for the D21 variant (known finding); lfs.fetchexclude excuses objects only, tracked paths holding raw content are reported regardless (the property's literal reading, which the code follows). git's clean filter may add objects while fsck runs diff-index (racy entries): additions are tolerated, removals and modifications are not.",
+   technique="Lean 4 proof (list-level characterisation of the fsck outcome by case analysis) + scenario correspondence with a plumbing/check-attr oracle and .git/lfs snapshots",
+   ref="§5 C13"),
 }
 PENDING_REASON = "check not built yet in this session (build in progress, see DESIGN.md §10); not claimed until its theorems and correspondence run"
 ALL = ["C%02d" % i for i in range(1, 21)]
